@@ -23,7 +23,7 @@ def parse(filename):
 def patch(nodes, patch_dict):
     for idx, node in enumerate(nodes):
         patches = patch_dict.get(node.name)
-        if patches:
+        if patches and not isinstance(node, model.Include):
             nodes[idx] = _apply(node, patches)
 
 
@@ -97,6 +97,10 @@ def _dynamic(node, patch_):
     if not member:
         raise Exception("Member not found: %s %s" % (node.name, patch_))
 
+    sizer_found = len(tuple(x for x in node.members[:i] if x.name == len_name))
+    if not sizer_found:
+        raise Exception("Array len member not found: %s %s" % (node.name, patch_))
+
     mem = node.members[i]
     mem.bound = len_name
     mem.size = None
@@ -163,6 +167,8 @@ def _limited(node, patch_):
         raise Exception("Array len member not found: %s %s" % (node.name, patch_))
 
     mem = node.members[i]
+    if not mem.size:
+        raise Exception("Only a sized array can be limited: %s %s" % (node.name, patch_))
     mem.bound = len_array
     mem.optional = False
     return node
